@@ -132,6 +132,8 @@ var vQuietTimers bool
 
 func vStartNodeAs(dir string, bootstrap, follower bool) (*vNode, error) {
 	log.SetOutput(io.Discard)
+	// -pre1.0_protobuf: the flag default (protobuf) unless the driver asks for the legacy JSON encoding
+	*useProtobuf = os.Getenv("VERIF_ENCODING") != "json"
 	// message ids = offset + raft index; main() sets the offset from a flag whose default is this value
 	robust.MessageOffset = 4648398125000000000
 	if o := os.Getenv("VERIF_MSGOFFSET"); o != "" {
